@@ -53,7 +53,12 @@ class Parser(Emitter):
         fn = self.functions.get(name)
         result = {'value': None}  # get around 2.7 not having nonlocal
         if fn is None:
-            fn = formulas.get_for(name)
+            try:
+                fn = formulas.get_for(name)
+            except SyntaxError:
+                # the registry signals a miss with SyntaxError, which ply would take as a request
+                # for syntax-error recovery if it escaped from a grammar action
+                fn = None
         if fn is None:
             raise formulaserror.NAME
         result['value'] = fn(*args)
